@@ -34,7 +34,8 @@ def cases(draw, tier):
     case = {"sub": sub, "n": n, "kind": draw(st.sampled_from(["real_pairs", "complex", "normal", "real_spd_like"])),
             "seed": draw(st.integers(0, 10**6)), "nrhs": 0, "rhs": draw(st.sampled_from(["generic", "generic", "grade"])), "g": g,
             "x0": "zero", "m": draw(st.integers(1, n + 8)), "tol_exp": draw(st.sampled_from([-12, -10, -8, -6])),
-            "batch": draw(st.integers(2, 3))}
+            "batch": draw(st.integers(2, 3)), "shift_exp": draw(st.sampled_from([0, 0, 0, 3, 6, 8])), "cstart": draw(st.integers(1, 5)) == 1,
+            "single": draw(st.integers(1, 6)) == 1}
     if sub == "padded":
         case["m"] = draw(st.integers(n + 1, n + 8))
     if sub == "eigs":
@@ -55,7 +56,8 @@ def dense(op):
 def verify(out, sub, site, M, v, Qd, Hd, m, tol, g):
     n = M.shape[0]
     mp = min(m, n)
-    rel = max(1e-10, 10 * tol)
+    eps = float(np.finfo(Qd.dtype).eps) if Qd.dtype.kind in "fc" else 2.2e-16
+    rel = max(1e-10, 10 * tol, 100 * eps)
     scale = max(1.0, np.abs(M).max())
     if not (np.all(np.isfinite(Qd)) and np.all(np.isfinite(Hd))):
         out.fail(sub, site, "nonfinite", "Q or H")
@@ -64,7 +66,7 @@ def verify(out, sub, site, M, v, Qd, Hd, m, tol, g):
         out.fail(sub, site, "shape", f"Q {Qd.shape} H {Hd.shape} for m={m}, n={n}")
         return False
     e = np.abs(Qd[:, 0] - v / np.linalg.norm(v)).max()
-    if e > 1e-10:
+    if e > max(1e-10, 10 * eps):
         out.fail(sub, site, "first_column", f"{e:.3e}")
     # columns past a breakdown are not constrained (see ASSUMPTIONS): the relation is judged on the steps actually defined
     kr = min(mp, g)
@@ -78,12 +80,12 @@ def verify(out, sub, site, M, v, Qd, Hd, m, tol, g):
     if sd.size and (np.abs(np.imag(sd)).max() > 1e-12 * scale or np.min(np.real(sd)) < -1e-12 * scale):
         out.fail(sub, site, "subdiagonal", f"{sd[:6]}")
     nrm = np.linalg.norm(Qd, axis=0)
-    bad = (nrm > 1e-300) & (np.abs(nrm - 1) > 1e-8)
+    bad = (nrm > 1e-300) & (np.abs(nrm - 1) > max(1e-8, 20 * eps))
     if np.any(bad):  # every column is either a unit vector or zero padding, never amplified noise
         out.fail(sub, site, "column_norm", f"column norms {nrm[bad][:4]} at {np.nonzero(bad)[0][:4]} (neither 0 nor 1)")
     k = min(mp + 1, g)
     e = np.abs(Qd[:, :k].conj().T @ Qd[:, :k] - np.eye(k)).max()
-    if e > 1e-9:
+    if e > max(1e-9, 50 * eps * max(k, 1)):
         out.fail(sub, site, "not_orthonormal", f"|Q^H Q - I| = {e:.3e} over the first {k} columns (g={g}, m'={mp})")
     return True
 
@@ -94,6 +96,17 @@ def check(case, out):
     sub = case["sub"]
     A_, B, X0, condx = c13.build(case)
     M = A_
+    if case.get("shift_exp"):  # strongly shifted operator s I + N: every Arnoldi step cancels heavily
+        M = M + (10.0 ** case["shift_exp"]) * np.eye(M.shape[0])
+        out.label("shifted")
+    if case.get("cstart") and not np.iscomplexobj(M) and case["sub"] != "batched":  # complex start vector, real operator
+        rs = np.random.default_rng(case["seed"] + 9)
+        B = B.astype(np.complex128) * (1 + 0.5j) + (1j * rs.standard_normal(B.shape) if case["rhs"] == "generic" else 0)
+        out.label("complex_start_real_operator")
+    if case.get("single") and not case.get("shift_exp"):
+        M = M.astype(np.complex64 if np.iscomplexobj(M) else np.float32)
+        B = B.astype(np.complex64 if np.iscomplexobj(B) else np.float32)
+        out.label("single_precision")
     n, m = case["n"], case["m"]
     tol = 10.0 ** case["tol_exp"]
     vs = [B] if B.ndim == 1 else [B[:, j] for j in range(B.shape[1])]
@@ -192,6 +205,7 @@ def check(case, out):
             Qj, Hj, _ = arnoldi(A, vv.copy(), max_iters=m, tol=tol)
             qd, hd = dense(Qj), dense(Hj)
             h = min(8, min(m, n))
-            if Qd[j].shape != qd.shape or np.abs(Qd[j][:, :h] - qd[:, :h]).max() > 1e-8 or np.abs(Hd[j][:h, :h] - hd[:h, :h]).max() > 1e-8 * scale:
+            bt = max(1e-8, 1e4 * float(np.finfo(qd.dtype).eps))
+            if Qd[j].shape != qd.shape or np.abs(Qd[j][:, :h] - qd[:, :h]).max() > bt or np.abs(Hd[j][:h, :h] - hd[:h, :h]).max() > bt * scale:
                 out.fail(sub, site, "batched_differs", f"member {j}")
                 return
